@@ -363,12 +363,32 @@ def run_ddsmt(workdir,
     if rthread is not None:
         reader_stop.append(1)
         rthread.join()
-    # make sure nothing of this run's process group lingers
+    # make sure nothing of this run's process group lingers; remember what
+    # was still alive (the run's session id is the main pid)
     try:
         os.killpg(proc.pid, 0)
         lingering = True
     except OSError:
         lingering = False
+    lingering_procs = []
+    if lingering:
+        time.sleep(0.05)
+        for ent in os.listdir('/proc'):
+            if not ent.isdigit():
+                continue
+            try:
+                with open(f'/proc/{ent}/stat') as f:
+                    st = f.read()
+                rest = st[st.rindex(')') + 2:].split()
+                state, pgrp = rest[0], int(rest[2])
+                if pgrp != proc.pid or state == 'Z':
+                    continue
+                with open(f'/proc/{ent}/cmdline', 'rb') as f:
+                    cl = f.read().replace(b'\0', b' ').decode('utf-8',
+                                                              'replace')
+                lingering_procs.append((int(ent), state, cl[:300]))
+            except (OSError, ValueError, IndexError):
+                continue
     r = RunResult()
     r.argv = argv
     r.opts = list(opts)
@@ -379,6 +399,7 @@ def run_ddsmt(workdir,
     r.timed_out = timed_out
     r.sent_signal = sent_signal
     r.lingering_group = lingering
+    r.lingering_procs = lingering_procs
     r.reader_seen = reader_seen
     r.reader_polls = reader_polls[0]
     r.infile = infile
